@@ -241,7 +241,7 @@ def jobs(tier):
                            split_depth=6, functions=U.FUNCS[unit], stubs=U.STUBS, require_events=['unit:%s' % unit],
                            budget_s=2400, crosscheck_every=500,
                            bounds=U.unit_bounds(extra) + '; depth counter symbolic in 1..6, max_depth = 2', outside=OUT))
-    out += UC.jobs(ASPECT, tier, langs)
+    out += UC.jobs(ASPECT, tier, langs, units=('class_members',) if tier == 'quick' else ('class_members', 'func_decl'))
     from src import utils
     from src.generators.generator import Generator
     out.append(Job('identifier-pool-history', h_word_pool, dict(K=6 if tier == 'quick' else 8, lang='java'), split_depth=4,
